@@ -4,8 +4,11 @@ CONSTANTS Acct <- AcctC
  BaseSet <- BaseNeg
  MaxSteps = @STEPS@
  MaxSnap = 2
+ MaxRevs = 99
+ MaxOuter = 99
+ MaxInner = 99
  WithSeal = TRUE
  FreeVals = FALSE
  Dv = {"@DEV@"}
-INVARIANTS UndoMatchesSaved NoPanic RevsOK DiscardAllIsBase RedoEqualsExec NoTraceOfReverted
+INVARIANTS UndoMatchesSaved NoPanic RevsOK DiscardAllIsBase RedoEqualsExec NoTraceOfReverted SaveSucceeds
 CHECK_DEADLOCK FALSE
